@@ -309,6 +309,14 @@ def runLine (line : String) : String :=
         | some a => "6:" ++ Usual.toHex a
         | none => "none"
     | _, _ => "bad-op"
+  | ["cnew"] => "ok"
+  | ["creset"] => "ok"
+  | ["cfail", m, nm] =>
+    -- a connect attempt that fails before any handshake; it must leave nothing behind that a
+    -- later connect on the same context would be judged by
+    match modeOf m, parseName nm with
+    | some _, some _ => "connect=fail"
+    | _, _ => "bad-op"
   | ["xpairs", m, kind, ah, lc, ln, lo, hi] =>
     match modeOf m, Usual.parseHex ah, lc.toNat?, ln.toNat?, lo.toNat?, hi.toNat? with
     | some strict, some al, some lc, some ln, some lo, some hi =>
@@ -321,7 +329,9 @@ def runLine (line : String) : String :=
       else "bad-op"
     | _, _, _, _, _, _ => "bad-op"
   | op :: m :: rest =>
-    if (op == "cert" || op == "hs") && rest.length ≥ 1 && rest.length < 62 then
+    -- `chs` = handshake on a re-used client context: judged by the name of ITS connect call,
+    -- exactly like `hs` (the model has no state to carry over)
+    if (op == "cert" || op == "hs" || op == "chs") && rest.length ≥ 1 && rest.length < 62 then
       match modeOf m, parseName (rest.getLast!), parseEntries rest.dropLast ⟨[], []⟩ with
       | some strict, some name, some cert =>
         let r := checkName (ipLit strict) cert name
